@@ -9,6 +9,7 @@ import (
 	"context"
 	"fmt"
 	"math/big"
+	"math/rand"
 	"regexp"
 	"strings"
 	"unicode/utf8"
@@ -223,6 +224,14 @@ func zbytes(x string) string {
 	return lib.CoqList(items)
 }
 
+// randSrc adapts the splitmix stream to math/rand's Source for big.Int.Rand.
+type rngSource struct{ r *lib.RNG }
+
+func (s rngSource) Int63() int64    { return s.r.Int63() }
+func (s rngSource) Seed(int64)      {}
+func (s rngSource) Uint64() uint64  { return s.r.Uint64() }
+func randSrc(r *lib.RNG) *rand.Rand { return rand.New(rngSource{r}) }
+
 func pow10(k int64) *big.Int { return new(big.Int).Exp(big.NewInt(10), big.NewInt(k), nil) }
 
 func (v val) coq() string {
@@ -354,6 +363,7 @@ func gen(r *lib.RNG) caseT {
 		if r.Bool() {
 			return genRow(r)
 		}
+		return genEsb(r)
 	}
 	switch r.Intn(20) {
 	case 0, 1: // strings into string types (implementation-side predicate only)
@@ -461,7 +471,7 @@ func sqlType(t string) string {
 }
 
 func run(c *lib.Ctx, cs caseT) {
-	if cs.Mode == "insert-temporal" || cs.Mode == "insert-ignore-row" {
+	if cs.Mode == "insert-temporal" || cs.Mode == "insert-ignore-row" || cs.Mode == "convert-esb" {
 		c.Count("mode:" + cs.Mode)
 		f := func(id int, sig, what string) {
 			sigSeen[sig]++
@@ -473,6 +483,8 @@ func run(c *lib.Ctx, cs caseT) {
 		}
 		if cs.Mode == "insert-temporal" {
 			runTemporal(c, cs, f)
+		} else if cs.Mode == "convert-esb" {
+			runEsb(c, cs, f)
 		} else {
 			runRow(c, cs, f)
 		}
@@ -798,7 +810,7 @@ func runInsert(c *lib.Ctx, cs caseT, it *intType, p, s int64, src val, fail func
 
 func main() {
 	lib.Main("C27", func(c *lib.Ctx) {
-		c.Header = "From Coq Require Import List NArith ZArith.\nImport ListNotations.\nFrom GMS Require Import Codec.C25Arith Codec.C27Convert Codec.C27Strings Corr.C27.\nOpen Scope N_scope."
+		c.Header = "From Coq Require Import List NArith ZArith.\nImport ListNotations.\nFrom GMS Require Import Codec.C25Arith Codec.C27Convert Codec.C27Strings Codec.C27Temporal Codec.C27Enum Corr.C27.\nOpen Scope N_scope."
 		c.CaseType = "C27.case"
 		c.MismatchFn = "C27.mismatches"
 		c.SetRule("(target type, source value) pairs: targets = the ten integer types, DECIMAL(p,s) of nine shapes as column and " +
@@ -847,6 +859,11 @@ func main() {
 		corpus = append(corpus, tmp("date", "2023-02-30"), tmp("date", "2023-01-15abc"), tmp("date", "1500-06-15"), tmp("datetime(6)", "2023-01-15 25:00:00"),
 			tmp("datetime(6)", "abc"), tmp("time(6)", "10:30:45abc"), tmp("time(6)", "11:59:30.451048abc"), tmp("time(6)", "00:00:00.499999 foo"), tmp("time(6)", "999:59:59"), tmp("time(6)", "839:00:00"), tmp("time(6)", "10:61:45"), tmp("year", "20x"), tmp("year", "1900"), tmp("year", "2023"),
 			tmp("datetime(6)", "9998-12-31 23:59:59.999999"), tmp("datetime(0)", "1000-01-01 00:00:00"))
+		esb := func(t, src, x string) caseT { return caseT{Target: t, Src: src, Text: x, Mode: "convert-esb"} }
+		corpus = append(corpus, esb("bit(8)", "decimal", "-5.0"), esb("bit(64)", "int64", "-1"), esb("bit(64)", "decimal", "-1.0"), esb("bit(8)", "int64", "-5"),
+			esb("bit(8)", "int64", "255"), esb("bit(8)", "int64", "256"), esb("set(3)", "decimal", "-3.0"), esb("set(3)", "int64", "7"), esb("set(3)", "int64", "8"),
+			esb("set(3)", "int64", "-1"), esb("enum(3)", "int64", "0"), esb("enum(3)", "int64", "3"), esb("enum(3)", "int64", "4"), esb("enum(3)", "int64", "-1"),
+			esb("enum(3)", "decimal", "2.5"), esb("bit(1)", "decimal", "0.5"))
 		rowc := func(cols ...rowCol) caseT { return caseT{Mode: "insert-ignore-row", Row: cols} }
 		corpus = append(corpus,
 			rowc(rowCol{"tinyint", "1000", "over"}, rowCol{"mediumint", "9000000", "over"}, rowCol{"decimal(4,2)", "1.239", "frac"}),
